@@ -90,14 +90,14 @@ type c5node struct {
 }
 
 type c5world struct {
-	c      *Ctx
-	atoms  []zap.AtomicLevel
-	val    []zapcore.Level // model register per atomic (sequential member)
-	nodes  []*c5node
-	leaves []*c5node
-	hooks  []*c5node
+	c       *Ctx
+	atoms   []zap.AtomicLevel
+	val     []zapcore.Level // model register per atomic (sequential member)
+	nodes   []*c5node
+	leaves  []*c5node
+	hooks   []*c5node
 	hasIncr bool
-	marsh  map[string]int // message -> MarshalLogObject calls
+	marsh   map[string]int // message -> MarshalLogObject calls
 }
 
 type c5marsh struct {
